@@ -18,7 +18,15 @@ import (
 
 type Rand struct{ s uint64 }
 
-func NewRand(seed uint64) *Rand { return &Rand{s: seed*0x9E3779B97F4A7C15 + 0x1234567} }
+// NewRand hashes the seed through two splitmix rounds before using it as the
+// state, so that the streams of neighbouring seeds are unrelated (a state that
+// is linear in the seed makes seed k+1 the stream of seed k shifted by one draw).
+func NewRand(seed uint64) *Rand {
+	r := &Rand{s: seed ^ 0x5851F42D4C957F2D}
+	a := r.Uint64()
+	b := r.Uint64()
+	return &Rand{s: a ^ (b << 1) ^ 0x1234567}
+}
 
 func (r *Rand) Uint64() uint64 {
 	r.s += 0x9E3779B97F4A7C15
